@@ -343,6 +343,11 @@ def run(ctx):
                                 "None / a default / nothing anywhere in lib or bin")
     from . import ioerrors
     ioerrors.rule(ctx, "C17-read-errors")
+    ctx.rule("C17-working-directory", "a program's file libraries are found next to the program whatever the working directory and however the "
+                                      "program was named (relative path with a directory part, absolute path, bare file name): table of "
+                                      "file_library_factory with the file system answered")
+    from . import libtables as _lt17
+    _lt17.rule_location(ctx, "C17-working-directory", "C17-working-directory")
     ctx.rule("C17-file-text", "the reader is handed the file's text (LF or CRLF line ends, with or without a final newline): table of the "
                               "character stream file_char_stream yields for eleven file texts, the file system answered from the text")
     ioerrors.rule_stream(ctx, "C17-file-text")
